@@ -860,7 +860,10 @@ def random_udf_names(tier, quick_n=2, thorough_n=20):
     import os
     base = int(os.environ.get('VERIF_SEED', '0') or 0) * 1000 if tier != 'quick' else 0
     n = quick_n if tier == 'quick' else thorough_n
-    return ['udf-random:%d' % (base + k) for k in range(1, n + 1)] + ['udf-random-rr:%d' % (base + k) for k in range(1, n // 2 + 1)]
+    names = ['udf-random:%d' % (base + k) for k in range(1, n + 1)] + ['udf-random-rr:%d' % (base + k) for k in range(1, n // 2 + 1)]
+    if tier != 'quick':
+        names += ['udf-random:%d:150' % (base + k) for k in (1, 2)] + ['udf-random-rr:%d:120' % (base + 1)]       # long histories
+    return names
 
 
 def build_udf(c, name):
